@@ -7,6 +7,7 @@ import (
 	"errors"
 	"fmt"
 	"reflect"
+	"runtime"
 	"runtime/pprof"
 	"sort"
 	"strconv"
@@ -1062,15 +1063,19 @@ func (r *wsRun) opCancelSub(a int) {
 	s.state, s.reqID = stGone, ""
 }
 
-func (r *wsRun) opReconnect(failAt int) {
+func (r *wsRun) opReconnect(failAt, variant int) {
 	if failAt < 0 {
 		failAt = 0
+	}
+	limboN := r.limboCount()
+	if limboN > 0 {
+		failAt = 0 // keep the resolution of requests in limbo simple
 	}
 	outstanding := len(r.calls)
 	configured := 0
 	for _, s := range r.subs {
 		switch s.state {
-		case stPending1, stActive, stRepending, stInactive:
+		case stPending1, stActive, stRepending, stInactive, stLimbo:
 			configured++
 		case stUnsubscribing:
 			outstanding++
@@ -1083,6 +1088,43 @@ func (r *wsRun) opReconnect(failAt int) {
 	if failAt > 0 {
 		r.class("ws:reconnect-callback-send-fails")
 	}
+	if r.held != nil {
+		r.class("ws:reconnect-while-notification-held")
+	}
+	// requests that were blocked in Send while the connection was down go out on the new
+	// connection, before or after the callback runs (the real transport starts its sender
+	// before it invokes the callback, so both orders occur)
+	orig := map[string]frame{}
+	collectOriginals := func() bool {
+		for i := 0; i < limboN; i++ {
+			select {
+			case b := <-r.tr.out:
+				f, err := parseFrame(b)
+				if err != nil {
+					r.fail("request-shape", "a request that had been waiting for a connection was sent as %s (%v)", firstLine(string(b)), err)
+					continue
+				}
+				orig[f.Method+"|"+paramString(f)] = f
+			case <-time.After(liveness):
+				r.stuck("a request that had been waiting for a connection was not sent within %s after the connection came back", liveness)
+				return false
+			}
+		}
+		return true
+	}
+	var gate chan struct{}
+	if r.isDown {
+		gate = r.tr.up()
+		r.isDown = false
+		if variant%2 == 0 && gate != nil {
+			close(gate)
+			gate = nil
+			if !collectOriginals() {
+				return
+			}
+			r.class("ws:limbo-requests-sent-before-callback")
+		}
+	}
 	for attempt := 0; attempt < 3 && !r.dead; attempt++ {
 		// the old connection is gone: its server ids and request ids mean nothing any more
 		for id := range r.owner {
@@ -1094,6 +1136,7 @@ func (r *wsRun) opReconnect(failAt int) {
 		if attempt == 0 && failAt > 0 {
 			r.tr.failNext(failAt)
 		}
+		lo, hi := configuredCount(r.subs), configuredCount(r.subs)+maybeCount(r.subs)
 		var err error
 		done := make(chan struct{})
 		go func() {
@@ -1133,6 +1176,14 @@ func (r *wsRun) opReconnect(failAt int) {
 				break drain
 			}
 		}
+		if gate != nil {
+			close(gate)
+			gate = nil
+			if !collectOriginals() {
+				return
+			}
+			r.class("ws:limbo-requests-sent-after-callback")
+		}
 		// every call outstanding on the old connection completes with an error
 		for _, c := range append([]*wsCall{}, r.calls...) {
 			r.removeCall(c)
@@ -1152,7 +1203,6 @@ func (r *wsRun) opReconnect(failAt int) {
 					return
 				}
 				if e == nil {
-					// acceptable only if it is really gone; the channel is closed then
 					s.chClosed = true
 				}
 				r.stale = append(r.stale, s.unsubID)
@@ -1161,8 +1211,12 @@ func (r *wsRun) opReconnect(failAt int) {
 		}
 		// each configured subscription is re-requested exactly once on the new connection
 		failed := err != nil
-		if failed != (attempt == 0 && failAt > 0 && failAt <= configuredCount(r.subs)+maybeCount(r.subs)) && !(failed && attempt == 0 && failAt > 0) {
-			r.fail("resubscribe", "after-connect callback returned %v (send failure injected: %v)", err, attempt == 0 && failAt > 0)
+		inject := attempt == 0 && failAt > 0
+		if failed && !(inject && failAt <= hi) {
+			r.fail("resubscribe", "after-connect callback failed although no send failed: %v", err)
+		}
+		if !failed && inject && failAt <= lo {
+			r.fail("resubscribe", "after-connect callback returned no error although its send number %d failed", failAt)
 		}
 		for _, s := range r.subs {
 			n := seen[s.token]
@@ -1176,6 +1230,17 @@ func (r *wsRun) opReconnect(failAt int) {
 			case stPending1, stActive, stRepending, stInactive:
 				if n > 1 || (n == 0 && !failed) {
 					r.fail("resubscribe", "configured subscription %s (%s) was re-requested %d times on the new connection", s.token, s.state, n)
+				}
+			case stLimbo:
+				// its first request goes out on the new connection as well: 0 or 1 from the callback
+				if n > 1 {
+					r.fail("resubscribe", "subscription %s (requested while the connection was down) was re-requested %d times by the callback", s.token, n)
+				}
+				s.state = stPending1
+				if f, ok := orig["eth_subscribe|"+s.token]; ok {
+					s.reqID = f.ID // overwritten below when the callback re-requested it
+				} else if n == 0 {
+					r.fail("resubscribe", "subscription %s (requested while the connection was down) was not requested on the new connection", s.token)
 				}
 			case stRejected:
 				if n > 1 {
@@ -1213,9 +1278,56 @@ func (r *wsRun) opReconnect(failAt int) {
 			ids[f.ID] = true
 		}
 		if !failed {
-			return
+			break
 		}
 		// the real transport reconnects again after a failed callback
+	}
+	if r.dead || limboN == 0 {
+		return
+	}
+	// ---- requests that were in limbo: whatever the client decided for them, once the reply to
+	// the request that did go out has been processed they must be finished, with their own reply or an error
+	for _, c := range r.limbo {
+		f, ok := orig["verif_echo|"+c.token]
+		if !ok {
+			r.fail("request-shape", "call %s had been waiting for a connection but its request was never sent", c.token)
+			continue
+		}
+		c.id = f.ID
+		if !r.deliverSync(fmt.Sprintf(`{"jsonrpc":"2.0","id":%q,"result":"res-%s"}`, c.id, c.token)) {
+			return
+		}
+		r.stale = append(r.stale, c.id)
+		res, ok := r.waitCall(c, "the connection was re-established and the reply to its request was delivered")
+		if !ok {
+			return
+		}
+		if res.rpcErr == nil && res.result != "res-"+c.token {
+			r.fail("reply-pairing", "call %s (sent after the reconnect with id %s) returned result %q", c.token, c.id, res.result)
+		}
+	}
+	r.limbo = nil
+	for _, s := range r.subs {
+		if s.state != stLimboUnsub {
+			continue
+		}
+		s.state = stGone
+		f, ok := orig["eth_unsubscribe|"+s.serverID]
+		if !ok {
+			r.fail("request-shape", "Unsubscribe of %s had been waiting for a connection but its request was never sent", s.token)
+			continue
+		}
+		if !r.deliverSync(fmt.Sprintf(`{"jsonrpc":"2.0","id":%q,"result":true}`, f.ID)) {
+			return
+		}
+		r.stale = append(r.stale, f.ID)
+		e, ok := r.waitUnsub(s, "the connection was re-established")
+		if !ok {
+			return
+		}
+		if e == nil {
+			s.chClosed = true
+		}
 	}
 }
 
@@ -1300,7 +1412,15 @@ func runWS(c WSCase) (vs []evid.Violation, info wsInfo) {
 		case "cancelsub":
 			r.opCancelSub(st.A)
 		case "reconnect":
-			r.opReconnect(st.A)
+			r.opReconnect(st.A, st.B)
+		case "hold":
+			r.opHold(st.A)
+		case "consume":
+			if r.held != nil {
+				r.consumeHeld()
+			}
+		case "down":
+			r.opDown()
 		}
 		if !r.dead {
 			r.noStrayFrames(st.Op)
@@ -1310,6 +1430,12 @@ func runWS(c WSCase) (vs []evid.Violation, info wsInfo) {
 	// ---- wind down: everything still outstanding must be completable
 	if !r.dead && len(r.vs) == 0 {
 		r.trace = append(r.trace, "finish")
+		if r.isDown {
+			r.opReconnect(0, 0)
+		}
+		if r.held != nil && !r.dead {
+			r.consumeHeld()
+		}
 		for len(r.calls) > 0 && !r.dead {
 			r.opReply(len(r.calls)-1, 0)
 		}
@@ -1419,6 +1545,7 @@ var wsOps = []string{
 	"unsubreply", "unsubreply",
 	"stale", "stale",
 	"reject", "cancelcall", "cancelsub",
+	"hold", "hold", "consume", "down", "down",
 }
 
 var wsStepGen = rapid.Custom(func(rt *rapid.T) WSStep {
@@ -1430,6 +1557,8 @@ var wsStepGen = rapid.Custom(func(rt *rapid.T) WSStep {
 		}
 	case "reconnect":
 		st.A = rapid.SampledFrom([]int{0, 0, 0, 1, 2, 3}).Draw(rt, "failAt")
+		st.B = rapid.IntRange(0, 1).Draw(rt, "limboOrder")
+	case "consume", "down":
 	case "cancelcall", "cancelsub", "unsub", "notify":
 		st.A = rapid.IntRange(0, 7).Draw(rt, "a")
 	default:
